@@ -5,8 +5,10 @@
 
    How the reviewed items are used by the models:
 
-   Span::zero, Context::peek/span/token       Diag/SyntaxErr.v `cspan`, `token`: the current token's span, or
-                                              Span::zero(file_id) (all fields 0) when curr is past the end.
+   Span::zero, Context::peek/span/token       Diag/SyntaxErr.v `cspan`, `token`: the current token's span; when curr is
+                                              past the end, spans.last() -- the span of the LAST token of the file
+                                              (reviewed again after /repo b18ca25) -- and Span::zero(file_id) (all
+                                              fields 0) only for a file without any token.
    Context::skip                              Diag/SyntaxErr.v `skip`: n non-comment tokens, then comments and
                                               (when skip_newlines) newlines.
    syntax_error!/raise_syntax_error!/expect!  Diag/SyntaxErr.v: the error carries ctx.file and ctx.span() of the
@@ -18,9 +20,17 @@
                                               numbered but give no module, module() returns its use_files also when the
                                               parse failed; with bundle_std the preamble is pushed first (popped last)
                                               and `basics_index` = position of the preamble in `modules`.
-   outer_statement                            Diag/SyntaxErr.v `outer_statement_check`: the error is raised with the
-                                              context AFTER the parsed statement (finding: the reported line is that of
-                                              the next token, or 0 at the end of the input).
+   push_skip_newlines, head of statement      Diag/SyntaxErr.v `statement_span`: a Statement's span is ctx.span() taken
+                                              after push_skip_newlines(false) (= skip(0) with the flag cleared), i.e.
+                                              the span of the statement's first token.
+   outer_statement                            Diag/SyntaxErr.v `outer_statement_check`: the error carries stmt.span and
+                                              ctx.file; the returned context is ctx.skip(1) of the context after the
+                                              statement (reviewed again after /repo 953bea1; before, the span was that of
+                                              the token AFTER the statement).
+   the `A Name collision` arm                 not modelled in Coq (oracle only): when the colliding import comes from a
+                                              Lib (the std preamble that tree() appends to every user module) and the
+                                              older definition is in a File, the error is raised at the older (user)
+                                              span and the import becomes the help note (/repo 6e4bbe6).
    extract_namespaces, file_from_namespace,   Diag/FileIds.v `namespace_to_file`: module.file_id -> path, reversed;
    span_file (resolver, type checker),        every CompileError/TypeError takes its file from span.file_id through
    error!, resolution_error!, type_error!     that map and its line from the span passed to the macro.
@@ -35,11 +45,13 @@ Definition doc_diag_items : list (string * string * string) := [
   ("sylt-parser/src/parser.rs", "fn span",
    "fn span(&self) -> Span { self.peek().1 }");
   ("sylt-parser/src/parser.rs", "fn peek",
-   "fn peek(&self) -> (&Token, Span) { let token = self.tokens.get(self.curr).unwrap_or(&T::EOF); let zero_span = Span::zero(self.file_id); let span = self.spans.get(self.curr).unwrap_or(&zero_span).clone(); (token, span) }");
+   "fn peek(&self) -> (&Token, Span) { let token = self.tokens.get(self.curr).unwrap_or(&T::EOF); let zero_span = Span::zero(self.file_id); let span = self .spans .get(self.curr) .or(self.spans.last()) .unwrap_or(&zero_span) .clone(); (token, span) }");
   ("sylt-parser/src/parser.rs", "fn token",
    "fn token(&self) -> &T { &self.peek().0 }");
   ("sylt-parser/src/parser.rs", "fn skip",
    "fn skip(&self, n: usize) -> Self { let mut new = *self; let mut skipped = 0; while skipped < n { if !matches!(new.token(), T::Comment(_)) { skipped += 1; } new.curr += 1; } loop { match new.token() { T::Comment(_) => new.curr += 1, T::Newline if self.skip_newlines => new.curr += 1, _ => break, } } new }");
+  ("sylt-parser/src/parser.rs", "fn push_skip_newlines",
+   "fn push_skip_newlines(&self, skip_newlines: bool) -> (Self, bool) { let mut new = *self; new.skip_newlines = skip_newlines; (new.skip(0), self.skip_newlines) }");
   ("sylt-parser/src/parser.rs", "macro syntax_error",
    "macro_rules! syntax_error { ($ctx:expr, $( $msg:expr ),* ) => { { let msg = format!($( $msg ),*).into(); Error::SyntaxError { file: $ctx.file.clone(), span: $ctx.span(), message: msg, } } }; }");
   ("sylt-parser/src/parser.rs", "macro raise_syntax_error",
@@ -50,8 +62,10 @@ Definition doc_diag_items : list (string * string * string) := [
    "fn find_conflict_markers(file: &FileOrLib, file_id: usize, source: &str) -> Vec<Error> { let mut errs = Vec::new(); for (i, line) in source.lines().enumerate() { let conflict_marker = ""<<<<<<<""; if line.starts_with(conflict_marker) { errs.push(Error::GitConflictError { file: file.clone(), span: Span { line_start: i + 1, line_end: i + 1, col_start: 1, col_end: conflict_marker.len() + 1, file_id, }, }); } } errs }");
   ("sylt-parser/src/parser.rs", "fn tree",
    "fn tree<F>(path: &Path, reader: F, bundle_std: bool) -> Result<AST, Vec<Error>> where F: Fn(&Path) -> Result<String, Error>, { let mut visited = HashSet::new(); let mut to_visit = Vec::new(); let root = path.parent().unwrap(); if bundle_std { to_visit.push(FileOrLib::Lib(""preamble"")); } to_visit.push(FileOrLib::File(PathBuf::from(path))); let mut modules = Vec::new(); let mut errors = Vec::new(); while let Some(include) = to_visit.pop() { if visited.contains(&include) { continue; } let file_id = visited.len(); visited.insert(include.clone()); let source = match &include { FileOrLib::Lib(name) => library_source(name).unwrap().to_string(), FileOrLib::File(file) => match reader(file) { Ok(source) => source, Err(err) => { errors.push(err); continue; } }, }; let mut conflict_errors = find_conflict_markers(&include, file_id, &source); if !conflict_errors.is_empty() { errors.append(&mut conflict_errors); continue; } let tokens = string_to_tokens(file_id, &source); let (mut next, result) = module(&include, file_id, &root, &tokens); match result { Ok(module) => modules.push((include.clone(), module)), Err(mut errs) => errors.append(&mut errs), } to_visit.append(&mut next); } if bundle_std { let basics_index = modules .iter() .position(|(f, _)| *f == FileOrLib::Lib(""preamble"")) .expect(""Error in the preamble code""); let tokens = string_to_tokens(basics_index, library_source(""preamble"").unwrap()); let (_, std) = module(&FileOrLib::Lib(""basics""), basics_index, &root, &tokens); let std = std?; modules = modules .into_iter() .map(|(file, mut module)| { match file { FileOrLib::File(_) => { module.statements.append(&mut std.statements.clone()); } FileOrLib::Lib(_) => {} }; (file, module) }) .collect(); } if errors.is_empty() { Ok(AST { modules }) } else { let mut seen = HashSet::new(); let errors = errors .into_iter() .filter(|err| match err { Error::SyntaxError { span, file, .. } => seen.insert((span.clone(), file.clone())), _ => true, }) .collect(); Err(errors) } }");
+  ("sylt-parser/src/statement.rs", "head statement",
+   "fn statement<'t>(ctx: Context<'t>) -> ParseResult<'t, Statement> { use StatementKind::*; let (ctx, skip_newlines) = ctx.push_skip_newlines(false); let mut comments = ctx.comments_since_last_statement(); let ctx = ctx.push_last_statement_location(); let span = ctx.span();");
   ("sylt-parser/src/statement.rs", "fn outer_statement",
-   "fn outer_statement<'t>(ctx: Context<'t>) -> ParseResult<Statement> { let (ctx, stmt) = statement(ctx)?; use StatementKind::*; match stmt.kind { #[rustfmt::skip] Blob { .. } | Enum { .. } | Definition { .. } | ExternalDefinition { .. } | Use { .. } | FromUse { .. } | EmptyStatement => Ok((ctx, stmt)), _ => raise_syntax_error!(ctx, ""Not a valid outer statement""), } }");
+   "fn outer_statement<'t>(ctx: Context<'t>) -> ParseResult<Statement> { let (ctx, stmt) = statement(ctx)?; use StatementKind::*; match stmt.kind { #[rustfmt::skip] Blob { .. } | Enum { .. } | Definition { .. } | ExternalDefinition { .. } | Use { .. } | FromUse { .. } | EmptyStatement => Ok((ctx, stmt)), _ => Err(( ctx.skip(1), vec![Error::SyntaxError { file: ctx.file.clone(), span: stmt.span, message: ""Not a valid outer statement"".into(), }], )), } }");
   ("sylt-compiler/src/compiler.rs", "macro error",
    "macro_rules! error { ($compiler:expr, $span:expr, $( $msg:expr ),+ ) => { if !$compiler.panic { $compiler.panic = true; let msg = format!($( $msg ),*).into(); let err = Error::CompileError { file: $compiler.file_from_namespace($span.file_id).clone(), span: $span, message: Some(msg), helpers: Vec::new(), }; $compiler.errors.push(err); } }; }");
   ("sylt-compiler/src/compiler.rs", "fn file_from_namespace",
@@ -62,6 +76,8 @@ Definition doc_diag_items : list (string * string * string) := [
    "macro_rules! resolution_error { ($self:expr, $span:expr, $( $msg:expr ),* ) => { { let message = format!($( $msg ),*); Error::CompileError { file: $self.span_file(&$span), span: $span.clone(), message: Some(message), helpers: Vec::new(), } } }; }");
   ("sylt-compiler/src/name_resolution.rs", "fn span_file",
    "fn span_file(&self, span: &Span) -> FileOrLib { self.namespace_to_file[&span.file_id].clone() }");
+  ("sylt-compiler/src/name_resolution.rs", "block A Name collision - duplicate definitions of",
+   "Entry::Occupied(occ) if occ.get() != &to_insert => { let span = match occ.get() { Name::Name(r) => self.variables[*r].definition, Name::Namespace(_, span) => *span, }; let (at, other, note) = if matches!( self.span_file(&var.span), FileOrLib::Lib(_) ) && matches!(self.span_file(&span), FileOrLib::File(_)) { (span, var.span, ""It collides with this import of the standard library"") } else { (var.span, span, ""First definition is here"") }; let err = resolution_error!( self, at, ""A Name collision - duplicate definitions of {:?}"", var.name ); errs.push(self.add_help(err, other, note.into())); }");
   ("sylt-compiler/src/typechecker.rs", "macro type_error",
    "macro_rules! type_error { ($self:expr, $span:expr, $kind:expr, $( $msg:expr ),+ ) => { Error::TypeError { kind: $kind, file: $self.span_file(&$span), span: $span, message: Some(format!($( $msg ),*)), helpers: Vec::new(), } }; ($self:expr, $span:expr, $kind:expr) => { Error::TypeError { kind: $kind, file: $self.span_file(&$span), span: $span, message: None, helpers: Vec::new(), } }; }");
   ("sylt-compiler/src/typechecker.rs", "fn span_file",
